@@ -103,10 +103,12 @@ ExpDataspace(v) == [ver |-> 1, type |-> 1, dims |-> v.dims, max |-> v.max]
 -----------------------------------------------------------------------------
 (* data layout *)
 ChunkAtoms == {"1", "10", "4294967295"} \cup (IF Wide THEN {"4294967296"} ELSE {})
+\* the layout decoder also looks at the superblock version (size of chunk dimensions): all written versions
+SbV == {[osz |-> b.osz, lsz |-> b.lsz, ver |-> v] : b \in Sb, v \in {0, 2, 3}}
 Layout == {[kind |-> "layout", class |-> 1, addr |-> a, size |-> s, cdims |-> <<>>, sb |-> b] :
-             a \in Addrs, s \in Addrs \ {Undef}, b \in Sb}
+             a \in Addrs, s \in Addrs \ {Undef}, b \in SbV}
           \cup {[kind |-> "layout", class |-> 2, addr |-> a, size |-> "0", cdims |-> c, sb |-> b] :
-             a \in Addrs, c \in SeqsOf(ChunkAtoms, 1, IF Wide THEN 3 ELSE 2), b \in Sb}
+             a \in Addrs, c \in SeqsOf(ChunkAtoms, 1, IF Wide THEN 3 ELSE 2), b \in SbV}
 WfLayout(v) == FitsIn(v.addr, v.sb.osz) /\ FitsIn(v.size, v.sb.lsz)
 ExpLayout(v) == [ver |-> 3, class |-> v.class, addr |-> v.addr, size |-> v.size, cdims |-> v.cdims]
 
